@@ -6,7 +6,7 @@
    descriptors.  Heap reachability, HDF5 identifier lifetime and everything inside libhdf5 are runtime facts: they are
    TESTED by checks/C17.py (descriptor counts per operation, H5Fget_obj_count, LeakSanitizer, heap slope over cycles).
 
-   Variant Faithful is the code as it is; FixA / MFixed are the repairs proposed in notes/C17.md. *)
+   Variant Old is the code as it is; Cur / MCur are the repairs proposed in notes/C17.md. *)
 From Coq Require Import Arith List Bool Lia.
 From CgnsV Require Import Refcount RefcountProofs.
 Import ListNotations.
@@ -19,12 +19,12 @@ Import ListNotations.
    handles read through A, the first one on to B; close C#1 (closes B under A's feet), close A (reports
    ADF_FILE_NOT_OPENED after having dropped A's reference, so cgio keeps the slot), close C#2.  Every handle has been
    closed by its user; one cgio slot stays allocated for ever. *)
-Theorem C17_refcount_refuted : ~ refcount_balanced Faithful.
+Theorem C17_refcount_refuted : ~ refcount_balanced Old.
 Proof. exact refcount_balanced_refuted. Qed.
 Print Assumptions C17_refcount_refuted.
 
 Theorem C17_refcount_refuted_witness :
-  exists s rs, run Faithful 1000 w1 io_init [] ops1 = Some (s, [], rs) /\
+  exists s rs, run Old 1000 w1 io_init [] ops1 = Some (s, [], rs) /\
                nth 5 rs (ResWalk false) = ResClose ROk /\
                nth 6 rs (ResWalk false) = ResClose (RAdf ADF_FILE_NOT_OPENED) /\
                nopen s = 1 /\ iol s <> [] /\ ~ clean s.
@@ -33,14 +33,14 @@ Print Assumptions C17_refcount_refuted_witness.
 
 (* the premature close itself: A (slot 0) in use and listing slot 2 in links[], slot 2 (B) already closed *)
 Theorem C17_premature_close_refuted :
-  exists s rs, run Faithful 1000 w1 io_init [] [OOpen 0 false; OOpen 2 false; OWalk 2 [0; 1]; OClose 2] = Some (s, [1], rs) /\
+  exists s rs, run Old 1000 w1 io_init [] [OOpen 0 false; OOpen 2 false; OWalk 2 [0; 1]; OClose 2] = Some (s, [1], rs) /\
                in_use (slot_at (io_adf s) 0) = 1 /\ links (slot_at (io_adf s) 0) = [2] /\
                in_use (slot_at (io_adf s) 2) = 0 /\ ledger (io_adf s) = [0].
 Proof. exact refuted_premature_close. Qed.
 Print Assumptions C17_premature_close_refuted.
 
 (* two files linking to each other: ADFI_close_file does not return, for EVERY amount of fuel (the C: stack overflow) *)
-Theorem C17_close_cycle_refuted : forall fuel, run Faithful fuel w2 io_init [] ops2 = None.
+Theorem C17_close_cycle_refuted : forall fuel, run Old fuel w2 io_init [] ops2 = None.
 Proof. exact refuted_cycle. Qed.
 Print Assumptions C17_close_cycle_refuted.
 
@@ -48,14 +48,14 @@ Print Assumptions C17_close_cycle_refuted.
 (* ANY session, any link graph without a cycle between files, any fuel: if every handle has been closed, nothing is
    held: all in_use = 0, ledger empty, cgio table released *)
 Theorem C17_refcount_balanced_fixed : forall w rank fuel ops s rs,
-  acyclic w rank -> run FixA fuel w io_init [] ops = Some (s, [], rs) -> clean s.
+  acyclic w rank -> run Cur fuel w io_init [] ops = Some (s, [], rs) -> clean s.
 Proof. exact balanced_fixed. Qed.
 Print Assumptions C17_refcount_balanced_fixed.
 
 (* ANY link graph (cycles included): from a state satisfying the reference-count invariant, ADFI_close_file drops
    exactly the caller's reference, reports NO_ERROR, and re-establishes the invariant *)
 Theorem C17_close_drops_one_reference_fixed : forall w U fuel a i a' e,
-  Inv w a (i :: U) [] -> adfi_close_file FixA fuel a i = Some (a', e) -> e = 0 /\ Inv w a' U [].
+  Inv w a (i :: U) [] -> adfi_close_file Cur fuel a i = Some (a', e) -> e = 0 /\ Inv w a' U [].
 Proof. exact close_machine_ok. Qed.
 Print Assumptions C17_close_drops_one_reference_fixed.
 
@@ -63,20 +63,20 @@ Print Assumptions C17_close_drops_one_reference_fixed.
    (the code as it is does not: C17_close_cycle_refuted) *)
 Theorem C17_close_terminates_fixed : forall w U fuel a i,
   Inv w a (i :: U) [] -> 3 * tlinks a + 3 <= fuel ->
-  exists a', adfi_close_file FixA fuel a i = Some (a', 0) /\ Inv w a' U [].
+  exists a', adfi_close_file Cur fuel a i = Some (a', 0) /\ Inv w a' U [].
 Proof. exact close_machine_total. Qed.
 Print Assumptions C17_close_terminates_fixed.
 
 (* every cgio-level operation preserves the invariant (reference counts = handles + link entries; ledger = files in
    use; every live cgio slot is a handle the user still has to close) *)
 Theorem C17_session_invariant_fixed : forall w fuel ops s pend s' pend' rs,
-  IOInv w s pend -> run FixA fuel w s pend ops = Some (s', pend', rs) -> IOInv w s' pend'.
+  IOInv w s pend -> run Cur fuel w s pend ops = Some (s', pend', rs) -> IOInv w s' pend'.
 Proof. intros w fuel ops. exact (run_inv w fuel ops). Qed.
 Print Assumptions C17_session_invariant_fixed.
 
 (* what the repair does not cure: a cycle of links keeps both files open (honest limit of reference counting) *)
 Theorem C17_fixed_cycle_leaks :
-  exists s rs, run FixA 1000 w2 io_init [] ops2 = Some (s, [], rs) /\ ledger (io_adf s) = [1; 0] /\
+  exists s rs, run Cur 1000 w2 io_init [] ops2 = Some (s, [], rs) /\ ledger (io_adf s) = [1; 0] /\
                in_use (slot_at (io_adf s) 0) = 1 /\ in_use (slot_at (io_adf s) 1) = 1 /\ iol s = [].
 Proof. exact fixA_cycle_leaks. Qed.
 Print Assumptions C17_fixed_cycle_leaks.
@@ -94,16 +94,16 @@ Print Assumptions C17_failing_link_open_releases.
 
 (* ---- the MLL table (cg_open / cg_close): [handles_released] of Refcount.v -------------------------------------- *)
 (* FALSE of the code as it is: a cg_open that fails after cgio_open_file succeeded returns without undoing anything *)
-Theorem C17_handles_released_refuted : ~ handles_released MFaithful.
+Theorem C17_handles_released_refuted : ~ handles_released MOld.
 Proof. exact handles_released_refuted. Qed.
 Print Assumptions C17_handles_released_refuted.
 
 Theorem C17_handles_released_refuted_witness :
-  exists m, mrun MFaithful mll_init [] [MOpen OLateFail] = (m, []) /\ n_open m = 1 /\ held m = [0] /\ files m = [Some 0].
+  exists m, mrun MOld mll_init [] [MOpen OLateFail] = (m, []) /\ n_open m = 1 /\ held m = [0] /\ files m = [Some 0].
 Proof. exact mll_refuted_failed_open. Qed.
 Print Assumptions C17_handles_released_refuted_witness.
 
-Theorem C17_handles_released_fixed : handles_released MFixed.
+Theorem C17_handles_released_fixed : handles_released MCur.
 Proof. exact handles_released_fixed. Qed.
 Print Assumptions C17_handles_released_fixed.
 
@@ -112,17 +112,17 @@ Print Assumptions C17_handles_released_fixed.
 Example C17_w1_acyclic : acyclic w1 (fun n => match n with 2 => 2 | 0 => 1 | _ => 0 end).
 Proof. exact w1_acyclic. Qed.
 
-Example C17_fixed_w1_clean : exists s rs, run FixA 1000 w1 io_init [] ops1 = Some (s, [], rs) /\ cleanb s = true /\
+Example C17_fixed_w1_clean : exists s rs, run Cur 1000 w1 io_init [] ops1 = Some (s, [], rs) /\ cleanb s = true /\
   forallb (fun r => match r with ResClose ROk | ResOpen (Some _) | ResWalk true => true | _ => false end) rs = true.
 Proof. exact fixA_w1_clean. Qed.
 
 (* the invariant is satisfiable by a non-trivial state: three files open, two link entries, one shared target *)
 Example C17_invariant_example :
-  exists s rs, run FixA 1000 w1 io_init [] [OOpen 0 false; OOpen 2 false; OWalk 2 [0; 1]] = Some (s, [2; 1], rs) /\
+  exists s rs, run Cur 1000 w1 io_init [] [OOpen 0 false; OOpen 2 false; OWalk 2 [0; 1]] = Some (s, [2; 1], rs) /\
                IOInv w1 s [2; 1] /\ in_use (slot_at (io_adf s) 0) = 2 /\ ledger (io_adf s) = [1; 2; 0].
 Proof. exact invariant_example. Qed.
 
 Example C17_mll_fixed_example :
-  exists m, mrun MFixed mll_init [] [MOpen OSuccess; MOpen OLateFail; MOpen OSuccess; MClose 1 true; MClose 3 true] = (m, []) /\
+  exists m, mrun MCur mll_init [] [MOpen OSuccess; MOpen OLateFail; MOpen OSuccess; MClose 1 true; MClose 3 true] = (m, []) /\
             n_open m = 0 /\ held m = [] /\ files m = [] /\ foffset m = 3.
 Proof. exact mll_fixed_example. Qed.
